@@ -145,7 +145,8 @@ class Scratch:
             for p in sorted(files):
                 h.update(p.replace(self.root, "").encode())
                 with open(p, "rb") as f:
-                    h.update(f.read())
+                    # the injected #[path] lines name this run's scratch directory: normalise it
+                    h.update(f.read().replace(self.root.encode(), b"@SCRATCH@"))
         return h.hexdigest()
 
     def target_dir(self, n):
